@@ -1,7 +1,12 @@
 /* C17 harnesses for the buffer.c readers: the real buffer.c is included verbatim.
  * bug()/_do_assert() are a VISIBLE REFUSAL here (ghost g_diag, path ends); every path that returns
  * must have consumed bytes inside [pos, argc) only.  argv is an object of exactly argc bytes. */
+/* buffer.c's always-on bounds check (bufMust) reports through the variadic bug(fmt, ...); dfcc cannot frame-check a
+ * variadic callee, so inside this unit the call is routed to a non-variadic twin with the same meaning (refusal) */
+extern void v_bug_refuses(void);
+#define bug(...) v_bug_refuses()
 #include "buffer.c"
+#undef bug
 #include "strops.c"     /* strAlloc, strLength, strCopy: the real bodies */
 #include "vharness.h"
 #define V_STUB_BUG_DIAG
@@ -10,6 +15,15 @@
 #define C_BUFFER_HARNESS_SUPPORT
 #define C_BUFFER_STO_REFUSING   /* stoAlloc(0) == NULL, absurd sizes refused with a diagnostic, as the real store.c */
 #include "c_buffer.h"
+void v_bug_refuses(void)
+{
+	g_diag = 1;
+#ifdef NATIVE_REPLAY
+	printf("REPLAY-DIAG bug(): buffer access out of range\n"); exit(v_replay_failed ? 1 : 0);
+#else
+	__CPROVER_assume(0);
+#endif
+}
 
 #ifndef V_NCH
 # define V_NCH 16
